@@ -179,6 +179,37 @@ pub fn contract_packer_int_capacity(x: i32, cap: usize, pre: usize) {
     }
 }
 
+/// contract in_range / at_least / positive / to_bool (the validators every generated codec is made of), all i32:
+///   Ok(v) exactly when v satisfies the bound, the value is passed through unchanged, Err(IntOutOfRange) otherwise;
+///   to_bool accepts exactly 0 and 1.
+pub fn contract_range_helpers(v: i32, min: i32, max: i32) {
+    assert!(in_range(v, min, max) == if min <= v && v <= max { Ok(v) } else { Err(IntOutOfRange) });
+    assert!(at_least(v, min) == if min <= v { Ok(v) } else { Err(IntOutOfRange) });
+    assert!(positive(v) == if v >= 0 { Ok(v) } else { Err(IntOutOfRange) });
+    assert!(to_bool(v) == match v { 0 => Ok(false), 1 => Ok(true), _ => Err(IntOutOfRange) });
+}
+/// contract sanitize: Err(ControlCharacters) exactly when a byte below 0x20 occurs, else the same slice, no warning
+pub fn contract_sanitize<const N: usize>(b: [u8; N], len: usize) {
+    if len > N {
+        return;
+    }
+    let mut w = Count::new();
+    let r = sanitize(&mut w, &b[..len]);
+    let mut bad = false;
+    let mut i = 0;
+    while i < N {
+        if i < len && b[i] < 0x20 {
+            bad = true;
+        }
+        i += 1;
+    }
+    assert!(r.is_err() == bad);
+    if let Ok(s) = r {
+        assert!(s.len() == len);
+    }
+    assert!(w.total() == 0);
+}
+
 /// contract read_int, every byte string of length 0..=5 (longer strings: the
 /// decoder never looks past five bytes, proved by `consumed <= 5`):
 ///  - Err iff the string ends while the extend bit is set;
@@ -337,6 +368,21 @@ pub mod proofs {
         draw::assume(cap <= 7 && pre <= 2 && pre <= cap);
         draw::reached();
         contract_packer_int_capacity(x, cap, pre);
+    });
+
+    harness!(complete_range_helpers, {
+        let v = draw::i32();
+        let min = draw::i32();
+        let max = draw::i32();
+        draw::reached();
+        contract_range_helpers(v, min, max);
+    });
+    harness!(bounded_sanitize, unwind = 8, {
+        let b = draw::bytes::<5>();
+        let len = draw::usize();
+        draw::assume(len <= 5);
+        draw::reached();
+        contract_sanitize::<5>(b, len);
     });
 
     harness!(complete_to_bit, {
